@@ -97,6 +97,8 @@ def judge(case, ex):
     kind, val = ex.result
     if kind == 'exc':
         return [('harness-body-raised', repr(val))]
+    if getattr(ex, 'leftover_nondaemon', 0):
+        bad.append(('non-daemon worker left blocked after the call ended (the interpreter cannot exit)', f'{ex.leftover_nondaemon} task(s)'))
     outs, exc = val
     vals = collections.Counter(('None' if o is None else o[1]) for o in outs)
     if any(c > 1 for c in vals.values()) or any(expected[v] < c for v, c in vals.items()):
@@ -110,10 +112,10 @@ def judge(case, ex):
             if reached:
                 if exc is None: bad.append(('error-swallowed', f'filter raised for {sorted(faults)} but the call returned normally with {sorted(vals.elements(), key=str)}'))
                 elif case.get('exc', 'custom') == 'custom' and not (isinstance(exc, InjectedError) and exc.item in faults): bad.append(('wrong-exception', repr(exc)))
-                elif case.get('exc') in ('cannot-unpickle', 'huge'): pass      # any error is accepted, the call only has to terminate with one
+                elif case.get('exc') in ('cannot-unpickle', 'cannot-pickle', 'huge'): pass      # any error is accepted, the call only has to terminate with one
                 elif case.get('exc', 'custom') != 'custom' and type(exc) is not EXC_KINDS[case['exc']]: bad.append(('wrong-exception', repr(exc)))
     else:
-        if exc is not None and not isinstance(exc, (InjectedError,) + tuple(k for k in EXC_KINDS.values() if isinstance(k, type))) and case.get('exc') not in ('cannot-unpickle', 'huge'):
+        if exc is not None and not isinstance(exc, (InjectedError,) + tuple(k for k in EXC_KINDS.values() if isinstance(k, type))) and case.get('exc') not in ('cannot-unpickle', 'cannot-pickle', 'huge'):
             bad.append(('early-close-raised', repr(exc)))
         want = min(case['consumer'], sum(expected.values()))
         if exc is None and not faults and sum(vals.values()) != want:
@@ -178,7 +180,7 @@ class C08(Check):
         # the filter raises ordinary builtin exceptions (incl. the ones coba's own queue plumbing catches internally)
         for kind in [k for k in EXC_KINDS if k != 'custom']:
             for wrapper, n, m in (('mp', 2, 0), ('mp', 1, 1), ('coba', 2, 0)):
-                if tier == 'quick' and wrapper == 'coba' and kind not in ('ValueError', 'EOFError', 'cannot-unpickle'): continue
+                if tier == 'quick' and wrapper == 'coba' and kind not in ('ValueError', 'EOFError', 'cannot-unpickle', 'cannot-pickle'): continue
                 for x in (1, 2):
                     out.append({'wrapper': wrapper, 'n': n, 'm': m, 'items': 2, 'faults': [x], 'consumer': 'all', 'exc': kind})
         # filters that give more / fewer than one output per item, or the output None
@@ -323,7 +325,7 @@ class C08(Check):
         # 'huge' exceptions are not replayed on the real OS in the registered runs: the real run hangs (listed finding), which would cost a
         # 60 s timeout per run; the pipe-capacity model of the simulated layer was confirmed against real spawn once (vf/lib/realmp.py)
         confs = [c for c in self.cases(tier) if c['wrapper'] == 'mp' and not (c['n'] == 1 and c['m'] == 0) and c['consumer'] == 'all' and c.get('exc') != 'huge' and 'itemkind' not in c and 'first' not in c]
-        pick = confs if tier == 'thorough' else [c for c in confs if c['items'] == 2 and c['n'] == 2 and len(c['faults']) <= 1 and 'exc' not in c][:6] + [c for c in confs if c.get('exc') in ('EOFError', 'ValueError', 'cannot-unpickle') and c['n'] == 2 and c['faults'] == [1]] + [c for c in confs if c.get('fan') in ('two', 'none1') and (c['n'], c['m'], c['items']) == (2, 0, 2)] + [c for c in confs if c['items'] > 4 and c['faults'] == [1]]
+        pick = confs if tier == 'thorough' else [c for c in confs if c['items'] == 2 and c['n'] == 2 and len(c['faults']) <= 1 and 'exc' not in c][:6] + [c for c in confs if c.get('exc') in ('EOFError', 'ValueError', 'cannot-unpickle', 'cannot-pickle') and c['n'] == 2 and c['faults'] == [1]] + [c for c in confs if c.get('fan') in ('two', 'none1') and (c['n'], c['m'], c['items']) == (2, 0, 2)] + [c for c in confs if c['items'] > 4 and c['faults'] == [1]]
         n_ok = self.real_runs(pick, acc)
         acc.traces += n_ok
         return {'real_os_conformance_runs': n_ok}
